@@ -373,7 +373,7 @@ func main() {
 		Assume:   []string{"state pruning is off (Server.shutdown and Client fields are not behind hooked operations)", "WebSocket/real TCP listeners are not explored under the scheduler"},
 		Scenarios: []harness.Scenario{
 			mk("1client", 1, false, 1, 2),
-			mk("2clients", 2, false, 1, 1),
+			mk("2clients", 2, false, 1, 2),
 			mk("2clients/inproc+pipe", 2, true, -1, 1),
 		},
 	})
